@@ -247,6 +247,17 @@ def book_absorb(repo: Repo) -> List[Ob]:
             key = f"release#{k}:{owner.split('.')[-1]}"
             (obs.append(ok("BOOK-absorb", fi, key, P, n, f"the absorbed block `{blk_src}` is released by its previous owner")) if released else
              obs.append(bad("BOOK-absorb", fi, key, P, n, f"`{blk_src}` is multiplied into the new product space but its previous owner keeps it: the subsystem's state now lives in two places")))
+    # functional form of the product-space absorption: reduce(jnp.kron, (p.state for p in SELECTED), init) with `p.state_objs = []` for every p of SELECTED
+    for x in walk_no_nested(fi.node):
+        if isinstance(x, ast.Call) and (dotted(x.func) or "").split(".")[-1] == "reduce" and len(x.args) >= 2 and src(x.args[0]).split(".")[-1] == "kron" \
+                and isinstance(x.args[1], (ast.GeneratorExp, ast.ListComp)) and len(x.args[1].generators) == 1 and src(x.args[1].elt) == f"{src(x.args[1].generators[0].target)}.state":
+            it = src(x.args[1].generators[0].iter)
+            k += 1
+            kinds_seen.add("product-space")
+            rel = any(isinstance(l_, ast.For) and src(l_.iter) == it and any(isinstance(a_, ast.Assign) and src(a_.targets[0]) == f"{src(l_.target)}.state_objs" and isinstance(a_.value, ast.List) and not a_.value.elts
+                                                                               for a_ in ast.walk(l_)) for l_ in walk_no_nested(fi.node))
+            (obs.append(ok("BOOK-absorb", fi, f"release#{k}:reduce", P, x, f"the product spaces of `{it}` are folded in and each of them is emptied")) if rel else
+             obs.append(bad("BOOK-absorb", fi, f"release#{k}:reduce", P, x, f"the blocks of `{it}` are multiplied into the new product space but those product spaces keep their members: the subsystems' state now lives in two places")))
     kinds = kinds_seen
     if k < 3 or len(kinds) < 3:
         raise AnalysisError(f"BOOK-absorb: {k} absorption sites of kinds {sorted(kinds)} (floor: a product-space block, an envelope block and a stand-alone block)")
@@ -376,7 +387,8 @@ def valid(repo: Repo) -> List[Ob]:
         ("Envelope.apply_kraus", "at-most-two", lambda f: has_raise_under(f, lambda t: "len(states" in t and ("2" in t or "3" in t) and "==" not in t), "more than two targets are no longer rejected"),
         ("Envelope.measure", "destroyed-envelope", lambda f: has_raise_under(f, lambda t: "self.measured" in t), "measuring a destroyed envelope is no longer rejected"),
         ("Envelope.measure_POVM", "destroyed-envelope", lambda f: has_raise_under(f, lambda t: "self.measured" in t), "a POVM on a destroyed envelope is no longer rejected"),
-        ("Envelope.combine", "destroyed-member", lambda f: any(isinstance(l, ast.For) and any(isinstance(y, ast.Raise) for y in ast.walk(l)) and "measured" in src(l) for l in walk_no_nested(f.node)), "combining an envelope with a destroyed member is no longer rejected"),
+        ("Envelope.combine", "destroyed-member", lambda f: any(isinstance(l, ast.For) and any(isinstance(y, ast.Raise) for y in ast.walk(l)) and "measured" in src(l) for l in walk_no_nested(f.node))
+         or has_raise_under(f, lambda t: "measured" in t and ("any(" in t or " or " in t)), "combining an envelope with a destroyed member is no longer rejected"),
         ("CompositeEnvelope.resize_fock", "fock-only", lambda f: has_raise_under(f, lambda t: "isinstance(" in t and "Fock" in t), "resizing a non-Fock subsystem is no longer rejected"),
         ("CompositeEnvelope.resize_fock", "member-only", lambda f: has_raise_under(f, lambda t: "self.state_objs" in t), "resizing a Fock space of another composite is no longer rejected"),
         ("CompositeEnvelope.apply_kraus", "unique-targets", lambda f: has_raise_under(f, lambda t: "len(states)" in t and "set(states)" in t), "duplicate targets are no longer rejected"),
